@@ -330,12 +330,18 @@ def partial_shuffle(facts):
         if fn.get("body") is None:
             continue
         ind = induction_locals(fn)
+        from astu import single_assignment_locals
+        sal = single_assignment_locals(fn)
         idx = [0]
 
         def v(n, ps):
             if not (n.get("k") == "Call" and (n.get("cname") or "") in ("random_idx", "next_int") and len(n.get("args", [])) == 1):
                 return
             a = strip_all(n["args"][0])
+            hops = 0
+            while a.get("k") == "Ref" and a.get("d") in sal and hops < 4:      # `remaining = len - i; random(remaining)`
+                a = strip_all(sal[a["d"]])
+                hops += 1
             if not (a.get("k") == "Bin" and a.get("op") == "-" and strip_all(a["r"]).get("k") == "Ref" and strip_all(a["r"]).get("d") in ind):
                 return
             i_d = strip_all(a["r"])["d"]
